@@ -4,12 +4,12 @@ import os
 import subprocess
 import vf
 
-SEEDS = ["Seed1", "Seed2", "Seed3", "Seed4", "Seed5"]
+SEEDS = ["Seed1", "Seed2", "Seed3", "Seed4", "Seed5", "Seed6"]
 
 
 def export_pairs(tier, d):
     jobs = [dict(module="SqliteModelMC", cfg="SqliteModelMC.cfg", defines={"Seed": s, "Two": "FALSE", "Sample": 0}, heap="8g", timeout=3600, keep=True) for s in SEEDS]
-    rs = vf.tlc_many(jobs, parallel=5)
+    rs = vf.tlc_many(jobs, parallel=6)
     out = os.path.join(d, "pairs.ndjson")
     n = 0
     try:
@@ -78,7 +78,11 @@ def case_of(o, name):
     toggled = any(ks == {"autoinc"} for ks in by_table.values())
     # AUTOINCREMENT toggled on a table whose primary key stays the same (whatever else changes in that table)
     samekey = any("autoinc" in ks and "pk" not in ks for ks in by_table.values())
-    return {"part": "engine", "formula": name, "edit_fields": ",".join(sorted({x[1] for x in delta})), "autoincrement_only_edit_on_a_table": toggled,
+    # a table that exists before and after but keeps none of its columns (every one is dropped while others are added)
+    def present(t):
+        return {c for c, r in (t or {}).get("cols", {}).items() if r["type"] != "-"}
+    nosurv = any(present(o["from"].get(t)) and present(o["to"].get(t)) and not (present(o["from"].get(t)) & present(o["to"].get(t))) for t in o["from"])
+    return {"part": "engine", "formula": name, "edit_fields": ",".join(sorted({x[1] for x in delta})), "autoincrement_only_edit_on_a_table": toggled, "table_keeps_none_of_its_columns": nosurv,
             "autoincrement_toggled_key_unchanged": samekey, "edit": delta}
 
 
